@@ -17,7 +17,7 @@ from vf.xlate import BACKENDS, translate
 
 RULE = (
     "case = (back end, generated host query, graft kind, graft position = index of the numeric / column production it replaces). asserted "
-    "catalogue: operators // << >> | ^ & @ ~, comparison chains, in / is, Aggregate(f) and Aggregate(f, g), Sum / Max / Min with an argument, accumulators of one or three parameters, slices, + - * / % ** unary and "
+    "catalogue: operators // << >> ^ @ ~ (not & and |: the README documents them as the spelling of and / or), comparison chains, in / is, Aggregate(f) and Aggregate(f, g), Sum / Max / Min with an argument, accumulators of one or three parameters, slices, + - * / % ** unary and "
     "comparison with a collection operand, math functions of a collection, a collection / sequence / object / string where a truth value is needed (and / or operand, conditional test, Where predicate), First() with a predicate or default, a surplus argument of Select / Where / SelectMany or of an applied lambda (and a missing one), unary operators / ** / math functions of a string or an object, a string or an object as a Range bound or an index, raw-object output columns (collection, singleton, First() of objects, object in a tuple), sequence "
     "operators on a scalar, a member or method of a number / bool, arithmetic with a string or an object operand, wrong number of column names, getAttribute, math.sin module calls, keyword arguments (silently dropped before the fix), metadata without / with unknown "
     "metadata_type, with a missing, unknown or misspelt key, with a string where a list of strings is documented, with both return_type and return_type_element, a block of an executor-registered (extended) metadata type with a misspelt key. non-trivial = graft at lambda depth >= 2 or behind a rewrite (First-method, fused "
@@ -27,7 +27,7 @@ RULE = (
 MARK = 424242  # every expression graft carries this literal so that we can tell whether it reached the translator
 
 NUM_GRAFTS = [
-    "floordiv", "lshift", "rshift", "bitor", "bitxor", "bitand", "matmul", "invert", "chain", "in", "is",
+    "floordiv", "lshift", "rshift", "bitxor", "matmul", "invert", "chain", "in", "is",
     "seq-add", "seq-mul", "seq-neg", "seq-cmp", "seq-pow", "seq-div", "seq-mod", "vec-add", "vec-neg", "vec-cmp", "vec-pow",
     "seq-negneg", "seq-posneg", "seq-notnot", "seq-neg4", "vec-negneg", "seq-cmp-rhs", "seq-sub-rhs",
     "agg-1", "agg-2", "slice", "slice-step", "scalar-Select", "scalar-Count", "scalar-Where", "scalar-First", "scalar-Sum", "math-module",
@@ -45,7 +45,9 @@ NUM_GRAFTS = [
 COL_GRAFTS = ["raw-collection", "raw-singleton", "raw-first-object", "raw-object-var", "raw-objvec"]
 TOP_GRAFTS = ["names-too-few", "names-too-many", "md-no-type", "md-unknown-type", "md-missing-key", "md-unknown-key", "md-unknown-key-cppfn", "md-string-for-list",
               "md-both-return-types", "md-extended-unknown-key"]
-EXTENDED = ["kwarg", "set", "genexp", "starred", "walrus", "fstring", "lambda-arity"]  # collect-only, not asserted
+# collect-only, not asserted.  '&' and '|' are refused by the translator today, but the README documents them as the way to write and / or in an
+# expression: a translator that came to support them would hold the property, so their refusal is not demanded (they were in the asserted list before)
+EXTENDED = ["kwarg", "set", "genexp", "starred", "walrus", "fstring", "bitor", "bitand"]
 
 
 class GraftGen(QGen):
